@@ -572,7 +572,11 @@ func TestVerifC46(t *testing.T) {
 		{"fan-in", func(e *vsched.Enum, fails c45Failures, failing *int64) {
 			for _, k := range []c46Kind{c46Merge, c46Concat, c46Zip} {
 				for nsrc := 2; nsrc <= maxFan; nsrc++ {
-					c46Tuples(nsrc, maxLen, func(lens []int) {
+					ml := maxLen
+					if nsrc >= 4 && ml > 3 {
+						ml = 3 // 4 sources: lengths 0..3 (the case count grows with 4! close orders)
+					}
+					c46Tuples(nsrc, ml, func(lens []int) {
 						for _, buffered := range []bool{false, true} {
 							lens := append([]int(nil), lens...)
 							total, equal := 0, true
